@@ -41,7 +41,7 @@ def gen(tier, rng):
                     i += 1
                     sc = [P.NONDEC_ALIASES[k][(i + j) % len(P.NONDEC_ALIASES[k])] for j, k in enumerate(s)]
                     out.append((P.line(variants[i % 3], iv, ce, None, 10 ** 6, True, P.steady_clock(1700000000 * P.NS, len(sc) + 3), sc + ["success" if i % 2 else P.TERMINALS[i % len(P.TERMINALS)]]), "source-literal/interval"))
-        if 1 <= n <= 300:
+        if 1 <= n <= 3000:
             for k in P.NONDEC:
                 for m in (n - 1, n, n + 1):
                     for var in variants:
@@ -49,6 +49,12 @@ def gen(tier, rng):
                         out.append((P.line(var, "1", None, None, 10 ** 6, True, P.steady_clock(1700000000 * P.NS, m + 3), sc + ["success"]), "source-literal/script-length"))
                         sc2 = [P.NONDEC[(j + len(k)) % 3] for j in range(m)]
                         out.append((P.line(var, "2", 7 * P.NS, None, 10 ** 6, True, P.steady_clock(1700000000 * P.NS, m + 3), sc2 + ["denied"]), "source-literal/script-length"))
+    # the interval the waits start from is the server's number: a fractional or otherwise non-integral interval is refused
+    # (the model's decoder), never rounded down to a shorter wait
+    from gen import docs as D
+    base = [("device_code", "dc"), ("user_code", "uc"), ("verification_uri", D.URLS_VALID[0]), ("expires_in", 1800)]
+    for iv in ["7.5", "0.9", "2.5e0", "0.5", "4.999999", "1e-1", "5.0", "3e1", "7", "-0.0", "1.5e1", "75e-1", "0.0000001", "18446744073709551615.5"]:
+        out.append((D.decode_line("device", False, D.render(D.obj(base + [("interval", D.Raw(iv))]), rng, plain=True)), "interval-number-form"))
     # corpus: the two pinned-tree witnesses (D1, D2) in all variants
     for var in variants:
         out.append((P.line(var, "30", None, None, 100, True, P.steady_clock(0, 6), ["pending", "fail", "pending", "success"]), "corpus-D1"))
@@ -63,9 +69,15 @@ def monitor(line, obs):
 
 
 def run(tier, rng, C):
-    cases = gen(tier, rng)
+    allc = gen(tier, rng)
+    cases = [c for c in allc if c[0].startswith("POLL ")]
     v, stats = C.differential("C07", cases, monitor=monitor,
                               nontrivial=lambda l, o: " S" in o)
+    # the documents the interval is read from: the model's answer is the unique one
+    v2, st2 = C.differential("C07", [c for c in allc if not c[0].startswith("POLL ")], nontrivial=lambda l, o: o.startswith("ok"))
+    v += v2
+    stats = C.merge_stats(stats, st2)
+    stats["samples"] = stats["samples"][:6]
     stats["rule"] = ("exhaustive scripts over {pending, slow_down, transport failure} up to length %d (aliases: other status / Content-Type / extra members), "
                      "each followed by a terminal reply, x 11 intervals (absent, null, 0..u64::MAX) x 8 ceilings (default, 0, 1 s, =interval, interval+1 s, 1 h, 1.5 s, Duration::MAX) "
                      "x {blocking, future-based with 0 and 2 injected Pending}; longest scripts sampled 1 in 3 (quick) / 1 in 4 (thorough); "
